@@ -90,14 +90,11 @@ func (gsvd *GSVD) Factorize(a, b Matrix, kind GSVDKind) (ok bool) {
 	if gsvd.c != c {
 		panic(ErrShape)
 	}
-	var jobU, jobV, jobQ lapack.GSVDJob
+	jobU, jobV, jobQ := lapack.GSVDNone, lapack.GSVDNone, lapack.GSVDNone
 	switch {
 	default:
 		panic("gsvd: bad input kind")
 	case kind == GSVDNone:
-		jobU = lapack.GSVDNone
-		jobV = lapack.GSVDNone
-		jobQ = lapack.GSVDNone
 	case GSVDAll&kind != 0:
 		if GSVDU&kind != 0 {
 			jobU = lapack.GSVDU
